@@ -112,7 +112,9 @@ func (c *HttpContext) Write(wb []byte) (int, error) {
 	defer c.Flush()
 
 	for k, v := range c.ResponseHeaders.All() {
-		c.response.Header().Set(k, v[0])
+		// every value of a field, not only the first; a field without values
+		// stays without values (the net/http idiom that suppresses it)
+		c.response.Header()[http.CanonicalHeaderKey(k)] = v
 	}
 	c.response.WriteHeader(c.GetStatusCode())
 
